@@ -1,0 +1,18 @@
+package core
+
+import (
+	"fmt"
+	"net/http"
+)
+
+// CheckBackendStatus rejects a backend response whose status code cannot be relayed.
+// net/http's client accepts any three digits in a status line ("HTTP/1.1 099 ..."), but
+// ResponseWriter.WriteHeader panics for codes outside 100..999, so such a response has to be
+// treated as a failed attempt rather than passed on. The body is closed when an error is returned.
+func CheckBackendStatus(resp *http.Response) error {
+	if resp.StatusCode >= 100 && resp.StatusCode <= 999 {
+		return nil
+	}
+	resp.Body.Close()
+	return fmt.Errorf("backend returned invalid HTTP status code %d", resp.StatusCode)
+}
